@@ -1,9 +1,15 @@
 /-
-  Tie by translation (C01/C02): the fixed 12-octet header.  `header.unpack` translated from msg.go is the 12-octet
-  match that `Wire.unpackMsg` starts with, and `Wire.unpackMsg` is: translated `header.unpack` at offset 0, then the
-  four count-driven sections, then `header.header()` (`headerOfBits_translated`).
-  (The four `for i := 0; i < int(h.<count>); i++` loops of `Msg.Unpack` append to slices of records; they are outside
-  the translator's subset and stay tied by the differential runs.)
+  Tie by translation (C01/C02): `Msg.Unpack` as a whole.
+  * `header.unpack` translated from msg.go is the 12-octet match that `Wire.unpackMsg` starts with
+    (`header_unpack_translated`, `unpackMsg_header_translated`);
+  * `unpackResource` (rr.go): the `switch hdr.Type` that picks the per-type decoder (`unpackResource_translated`);
+  * the four `for i := 0; i < int(h.<count>); i++` loops of `Msg.Unpack`: each is translated to a step function
+    (`Translated.Msg_Unpack_loop<k>_step`) run by `GoSem.loop`; `<section>Step_eq` is the canonical form of one
+    iteration, `<section>Loop_translated` proves (induction on the remaining count, `GoSem.loop_unfold` at every
+    step) that the loop IS `Wire.unpackQuestions` / `Wire.unpackResources`;
+  * `unpackMsg_translated`: `Wire.unpackMsg msg` = the translation of `Msg.Unpack` on a fresh message.
+  Records are carried as values of `Wire.Resource` / `Wire.Question` built by the templates of
+  `extract/translate.d/codec.json` ("boxed", see extract/gotolean/bytes_boxed.go).
 -/
 import MosVerif.Lemmas.TranslatedCodecRecord
 namespace MosVerif.Wire
@@ -43,5 +49,212 @@ theorem unpackMsg_header_translated (msg : Bytes) :
   | ok buf =>
     rcases buf with _|⟨i0,_|⟨i1,_|⟨b0,_|⟨b1,_|⟨q0,_|⟨q1,_|⟨a0,_|⟨a1,_|⟨n0,_|⟨n1,_|⟨x0,_|⟨x1,r⟩⟩⟩⟩⟩⟩⟩⟩⟩⟩⟩⟩
     all_goals rfl
+
+/-! ### `unpackResource`: the type dispatch -/
+
+/-- `unpackResource` (rr.go): `ResourceHdr.unpack`, then the `switch hdr.Type` that picks the per-type decoder
+    (`r = NewA()` … `r.unpack(msg, off, hdr)`), the record carrying the header that was just decoded.
+    The proof splits on the nine classes of the type code and evaluates BOTH if-chains in each, so the order in
+    which the source lists the (disjoint) cases does not matter. -/
+theorem unpackResource_translated (msg : Bytes) (off : Nat) :
+    unpackResource msg off = Translated.unpackResource msg off := by
+  unfold unpackResource
+  rw [unpackRHdr_translated]
+  unfold Translated.unpackResource
+  cases Translated.ResourceHdr_unpack msg off with
+  | err => rfl
+  | panic => rfl
+  | ok r =>
+    obtain ⟨n, t, c, ttl, len, o⟩ := r
+    simp only [Res.bind_ok', Res.pure_eq]
+    by_cases h1 : t = 1
+    · subst h1
+      have e := unpackRData_A_translated msg o len (List.replicate 4 0) (by simp)
+      simp only [typeA] at e
+      rw [e]
+      cases Translated.A_unpack msg o len (List.replicate 4 0) <;> simp
+    by_cases h2 : t = 28
+    · subst h2
+      have e := unpackRData_AAAA_translated msg o len (List.replicate 16 0) (by simp)
+      simp only [typeAAAA] at e
+      rw [e]
+      cases Translated.AAAA_unpack msg o len (List.replicate 16 0) <;> simp
+    by_cases h3 : t = 15
+    · subst h3
+      have e := unpackRData_MX_translated msg o len
+      simp only [typeMX] at e
+      rw [e]
+      cases Translated.MX_unpack msg o len <;> simp
+    by_cases h4 : t = 5 ∨ t = 2 ∨ t = 12
+    · have e := unpackRData_NAME_translated msg o len t (by simpa [typeCNAME, typeNS, typePTR] using h4)
+      rw [e]
+      rcases h4 with h | h | h <;> subst h <;> cases Translated.NAMEResource_unpack msg o len <;> simp
+    by_cases h5 : t = 6
+    · subst h5
+      have e := unpackRData_SOA_translated msg o len
+      simp only [typeSOA] at e
+      rw [e]
+      cases Translated.SOA_unpack msg o len <;> simp
+    by_cases h6 : t = 33
+    · subst h6
+      have e := unpackRData_SRV_translated msg o len
+      simp only [typeSRV] at e
+      rw [e]
+      cases Translated.SRV_unpack msg o len <;> simp
+    · have h4' : ¬ t = 5 ∧ ¬ t = 2 ∧ ¬ t = 12 := by omega
+      have e := unpackRData_Raw_translated msg o len t (by simpa [typeA] using h1) (by simpa [typeAAAA] using h2)
+        (by simpa [typeMX] using h3) (by simpa [typeCNAME] using h4'.1) (by simpa [typeNS] using h4'.2.1)
+        (by simpa [typePTR] using h4'.2.2) (by simpa [typeSOA] using h5) (by simpa [typeSRV] using h6)
+      rw [e]
+      cases Translated.RawResource_unpack msg o len <;> simp [h1, h2, h3, h4'.1, h4'.2.1, h4'.2.2, h5, h6]
+
+/-! ### the four count-driven loops of `Msg.Unpack` -/
+
+/-- canonical form of one iteration of the questions loop (`for i := 0; i < int(h.questions); i++`) -/
+theorem questionsStep_eq (msg : Bytes) (cnt off i : Nat) (acc : List Question) :
+    Translated.Msg_Unpack_loop1_step msg cnt (off, acc, i) =
+      if i < cnt then
+        unpackQuestion msg off >>= fun (q, o) => .ok (.inl (o, acc ++ [q], i + 1))
+      else .ok (.inr (off, acc, i)) := by
+  unfold Translated.Msg_Unpack_loop1_step
+  rw [unpackQuestion_translated]
+  by_cases h : i < cnt
+  · simp only [h, decide_true, Bool.not_true, Bool.false_eq_true, if_false, if_true]
+    cases Translated.unpackQuestion msg off <;> simp
+  · simp [h]
+
+/-- canonical form of one iteration of a records loop; the three loops (answers, authorities, additionals) are
+    the same function of (msg, count, state) -/
+theorem answersStep_eq (msg : Bytes) (cnt off i : Nat) (acc : List Resource) :
+    Translated.Msg_Unpack_loop2_step msg cnt (off, acc, i) =
+      if i < cnt then
+        unpackResource msg off >>= fun (r, o) => .ok (.inl (o, acc ++ [r], i + 1))
+      else .ok (.inr (off, acc, i)) := by
+  unfold Translated.Msg_Unpack_loop2_step
+  rw [unpackResource_translated]
+  by_cases h : i < cnt
+  · simp only [h, decide_true, Bool.not_true, Bool.false_eq_true, if_false, if_true]
+    cases Translated.unpackResource msg off <;> simp
+  · simp [h]
+
+theorem authoritiesStep_eq (msg : Bytes) (cnt off i : Nat) (acc : List Resource) :
+    Translated.Msg_Unpack_loop3_step msg cnt (off, acc, i) =
+      if i < cnt then
+        unpackResource msg off >>= fun (r, o) => .ok (.inl (o, acc ++ [r], i + 1))
+      else .ok (.inr (off, acc, i)) := by
+  unfold Translated.Msg_Unpack_loop3_step
+  rw [unpackResource_translated]
+  by_cases h : i < cnt
+  · simp only [h, decide_true, Bool.not_true, Bool.false_eq_true, if_false, if_true]
+    cases Translated.unpackResource msg off <;> simp
+  · simp [h]
+
+theorem additionalsStep_eq (msg : Bytes) (cnt off i : Nat) (acc : List Resource) :
+    Translated.Msg_Unpack_loop4_step msg cnt (off, acc, i) =
+      if i < cnt then
+        unpackResource msg off >>= fun (r, o) => .ok (.inl (o, acc ++ [r], i + 1))
+      else .ok (.inr (off, acc, i)) := by
+  unfold Translated.Msg_Unpack_loop4_step
+  rw [unpackResource_translated]
+  by_cases h : i < cnt
+  · simp only [h, decide_true, Bool.not_true, Bool.false_eq_true, if_false, if_true]
+    cases Translated.unpackResource msg off <;> simp
+  · simp [h]
+
+/-- A count-driven loop whose iteration is `one`: `k` more iterations from counter `i` (`i + k = cnt`) are the
+    recursive section decoder `sect k`, the decoded items appended to the accumulator. -/
+theorem countLoop {α : Type} (step : Nat × List α × Nat → Res ((Nat × List α × Nat) ⊕ (Nat × List α × Nat)))
+    (one : Nat → Res (α × Nat)) (sect : Nat → Nat → Res (List α × Nat)) (cnt : Nat)
+    (hstep : ∀ off acc i, step (off, acc, i) =
+      if i < cnt then one off >>= fun (x, o) => .ok (.inl (o, acc ++ [x], i + 1)) else .ok (.inr (off, acc, i)))
+    (h0 : ∀ off, sect 0 off = .ok ([], off))
+    (hs : ∀ k off, sect (k + 1) off = one off >>= fun (x, o) => sect k o >>= fun (xs, o') => .ok (x :: xs, o')) :
+    ∀ (k i off : Nat) (acc : List α), i + k = cnt →
+      GoSem.loop step (off, acc, i) = sect k off >>= fun (xs, o) => .ok (o, acc ++ xs, cnt) := by
+  intro k
+  induction k with
+  | zero =>
+    intro i off acc hi
+    rw [GoSem.loop_unfold, hstep, h0]
+    have : ¬ i < cnt := by omega
+    simp [this]; omega
+  | succ k ih =>
+    intro i off acc hi
+    rw [GoSem.loop_unfold, hstep, hs]
+    have : i < cnt := by omega
+    simp only [this, if_true]
+    cases one off with
+    | err => rfl
+    | panic => rfl
+    | ok r =>
+      obtain ⟨x, o⟩ := r
+      simp only [Res.bind_ok']
+      rw [ih (i + 1) o (acc ++ [x]) (by omega)]
+      cases sect k o with
+      | err => rfl
+      | panic => rfl
+      | ok r2 => obtain ⟨xs, o'⟩ := r2; simp
+
+/-- the questions loop of `Msg.Unpack` IS `Wire.unpackQuestions` -/
+theorem questionsLoop_translated (msg : Bytes) (cnt off : Nat) (acc : List Question) :
+    GoSem.loop (Translated.Msg_Unpack_loop1_step msg cnt) (off, acc, 0) =
+      unpackQuestions msg cnt off >>= fun (qs, o) => .ok (o, acc ++ qs, cnt) :=
+  countLoop _ (unpackQuestion msg) (unpackQuestions msg) cnt (fun off acc i => questionsStep_eq msg cnt off i acc)
+    (fun _ => rfl) (fun _ _ => rfl) cnt 0 off acc (by omega)
+
+/-- the answers / authorities / additionals loops of `Msg.Unpack` ARE `Wire.unpackResources` -/
+theorem answersLoop_translated (msg : Bytes) (cnt off : Nat) (acc : List Resource) :
+    GoSem.loop (Translated.Msg_Unpack_loop2_step msg cnt) (off, acc, 0) =
+      unpackResources msg cnt off >>= fun (rs, o) => .ok (o, acc ++ rs, cnt) :=
+  countLoop _ (unpackResource msg) (unpackResources msg) cnt (fun off acc i => answersStep_eq msg cnt off i acc)
+    (fun _ => rfl) (fun _ _ => rfl) cnt 0 off acc (by omega)
+
+theorem authoritiesLoop_translated (msg : Bytes) (cnt off : Nat) (acc : List Resource) :
+    GoSem.loop (Translated.Msg_Unpack_loop3_step msg cnt) (off, acc, 0) =
+      unpackResources msg cnt off >>= fun (rs, o) => .ok (o, acc ++ rs, cnt) :=
+  countLoop _ (unpackResource msg) (unpackResources msg) cnt (fun off acc i => authoritiesStep_eq msg cnt off i acc)
+    (fun _ => rfl) (fun _ _ => rfl) cnt 0 off acc (by omega)
+
+theorem additionalsLoop_translated (msg : Bytes) (cnt off : Nat) (acc : List Resource) :
+    GoSem.loop (Translated.Msg_Unpack_loop4_step msg cnt) (off, acc, 0) =
+      unpackResources msg cnt off >>= fun (rs, o) => .ok (o, acc ++ rs, cnt) :=
+  countLoop _ (unpackResource msg) (unpackResources msg) cnt (fun off acc i => additionalsStep_eq msg cnt off i acc)
+    (fun _ => rfl) (fun _ _ => rfl) cnt 0 off acc (by omega)
+
+/-! ### `Msg.Unpack` as a whole -/
+
+/-- the message built from the fifteen components of the translated `Msg.Unpack` (the eleven `Header` fields in
+    the order of the Go struct, then the four sections) -/
+def msgOfTranslated
+    (r : Nat × Bool × Nat × Bool × Bool × Bool × Bool × Bool × Bool × Bool × Nat × List Question × List Resource × List Resource × List Resource) : Msg :=
+  match r with
+  | (id, resp, op, aa, tc, rd, ra, z, ad, cd, rc, qs, an, ns, ar) =>
+    ⟨{ id := id, response := resp, opcode := op, authoritative := aa, truncated := tc, rd := rd, ra := ra, ad := ad,
+       cd := cd, rcode := rc, z := z }, qs, an, ns, ar⟩
+
+/-- **`Wire.unpackMsg` IS the translation of `Msg.Unpack`** (msg.go) on a fresh message (`NewMsg()`: the four
+    sections empty), for every byte string: header, the four count-driven loops, the type dispatch of
+    `unpackResource`, every RDATA decoder, the name loop and the primitives below them. -/
+theorem unpackMsg_translated (msg : Bytes) :
+    unpackMsg msg = Translated.Msg_Unpack msg [] [] [] [] >>= fun r => .ok (msgOfTranslated r) := by
+  rw [unpackMsg_header_translated]
+  unfold Translated.Msg_Unpack
+  simp only [Res.bind_assoc', Res.bind_ok', Res.pure_eq]
+  refine Res.bind_congr' fun r _ => ?_
+  obtain ⟨id, bits, q, a, n, x, off⟩ := r
+  simp only [headerOfBits_translated, Res.bind_ok', questionsLoop_translated, answersLoop_translated,
+    authoritiesLoop_translated, additionalsLoop_translated, Res.bind_assoc', List.nil_append]
+  refine Res.bind_congr' fun r1 _ => ?_
+  obtain ⟨qs, o1⟩ := r1
+  simp only [Res.bind_ok']
+  refine Res.bind_congr' fun r2 _ => ?_
+  obtain ⟨an, o2⟩ := r2
+  simp only [Res.bind_ok']
+  refine Res.bind_congr' fun r3 _ => ?_
+  obtain ⟨ns, o3⟩ := r3
+  simp only [Res.bind_ok']
+  refine Res.bind_congr' fun r4 _ => ?_
+  obtain ⟨ar, o4⟩ := r4
+  simp [msgOfTranslated, headerOfBits]
 
 end MosVerif.Wire
